@@ -399,7 +399,7 @@ def run(ctx):
         ctx.count("corpus_cases")
     # ---- generated
     n_msgs = {"corpus": 12, "matrix-0.5": 70, "matrix-0.2": 25, "matrix-0.8": 25, "matrix-all": 12, "matrix-none": 8}
-    scale = 1 if not ctx.thorough else 8
+    scale = 1 if not ctx.thorough else 5
     for pi, (newer, older, masks, label) in enumerate(pairs_s):
         n = n_msgs.get(label, 22) * scale
         for _ in range(n):
@@ -442,7 +442,18 @@ def run(ctx):
 
     phases["implementation+oracle"] = round(time.time() - t0, 1)
     t0 = time.time()
-    bad = lib.coq_compare(ctx, "c08", IMPORTS, pairs, chunk=48 if not ctx.thorough else 96, prelude=prelude)
+    try:
+        bad = lib.coq_compare(ctx, "c08", IMPORTS, pairs, chunk=48 if not ctx.thorough else 96, prelude=prelude)
+    except RuntimeError as e:
+        # another check running at the same time against a scratch copy regenerates coq/gen/Tables.v; if that happened between
+        # our build and our evaluation the compiled model is momentarily inconsistent: rebuild once and retry
+        if "inconsistent assumptions" not in str(e):
+            raise
+        ctx.notes.append("coq_compare retried after a concurrent rebuild of coq/gen/Tables.vo")
+        if not lib.build(ctx, ["Properties/C08.vo"] + EXTRA_TARGETS):
+            raise
+        ctx.cov["traces_validated_against_impl"] = 0
+        bad = lib.coq_compare(ctx, "c08", IMPORTS, pairs, chunk=48 if not ctx.thorough else 96, prelude=prelude)
     for i in bad[:20]:
         case = meta[i]
         newer, older, masks, label = pairs_s[case.pi]
@@ -685,6 +696,9 @@ def one_case(ctx, case, newer, older, pairs, meta):
                 same_view = False
             if same_view is not None:
                 ctx.count("premise_view(newer sees k2 as the known records):" + ("holds" if same_view else "fails"))
+                if not same_view and len(ctx.notes) < 6:
+                    ctx.notes.append(f"premise_view fails (raw-state comparison; the == comparison of the oracle is separate): pair {pi} class {ncls.name} "
+                                     f"kind {case.kind} known records {known_b.hex()[:300]} re-encoded {k2.hex()[:300]}")
         except Exception:
             ctx.count("premise_C01_old:older_encode_error")
     nan = has_nan(direct)
